@@ -8,6 +8,7 @@
   quantities on the whole batch, the row-wise path only on the routed records).
 -/
 import Hg.Proofs.NpLaws
+import Hg.Proofs.CountTLaws
 
 namespace Hg.C03
 
@@ -37,5 +38,20 @@ theorem sum_nan_np_differs :
     let rows : List Datum := [[.num (.fin 1)], [.num .nan], [.num (.fin 2)]]
     (fillNp s rows [1, 1, 1]).map prune ≠ some (prune (fillAll s (rows.zip [1, 1, 1]))) :=
   Hg.sum_nan_np_differs
+
+/-- a Count with **any** weight transform `f` (`Hg.Model.CountT`, outside the tree model): the vectorised fill with a
+weight array equals the per-row fill — rows whose weight fails the gate `weight > 0` contribute nothing, whatever `f`
+makes of them -/
+theorem count_transform_np_eq_rows {W : Type} (pos : W → Bool) (f : W → Rat) (c : Rat) (ws : List W) :
+    CountT.fillNp pos f c ws = CountT.fillAll pos f c ws :=
+  (CountT.fillAll_eq_np pos f c ws).symm
+
+/-- … and with a scalar weight on a batch of `n` rows it equals `n` per-row fills of that weight -/
+theorem count_transform_np_scalar_eq_rows {W : Type} (pos : W → Bool) (f : W → Rat) (c : Rat) (w : W) (n : Nat) :
+    CountT.fillNpScalar pos f c w n = CountT.fillAll pos f c (List.replicate n w) :=
+  CountT.fillNpScalar_eq pos f c w n
+
+/-! non-vacuity: a transform with `f 0 ≠ 0` ("count the rows") on weights with a zero and a NaN -/
+example : CountT.fillNp Val.pos (fun _ => 1) 0 [.fin 2, .fin 0, .nan, .fin (1/2)] = 2 := by decide +kernel
 
 end Hg.C03
